@@ -1419,7 +1419,81 @@ def lower_suppress(repo):
     return count
 
 
+def lower_record_entries(repo):
+    """get_fields() entries given as a namedtuple: ``R(name=a, field=b, ...)`` in the builder is
+    the tuple of its arguments in field order, and a loop ``for e in X.get_fields():`` whose body
+    uses ``e`` only as ``e.<field of R>`` is the loop ``for (e_f1, e_f2, ...) in X.get_fields():``
+    over the same names -- the unpacking form the rest of the code base (and the generated code)
+    uses.  Exact: a namedtuple is a tuple"""
+    records = {}
+    for mod in repo.modules.values():
+        for st in mod['tree'].body:
+            if isinstance(st, ast.Assign) and len(st.targets) == 1 and isinstance(st.targets[0], ast.Name) and isinstance(st.value, ast.Call) \
+                    and (ast.unparse(st.value.func) in ('namedtuple', 'collections.namedtuple')) and len(st.value.args) == 2:
+                a = st.value.args[1]
+                if isinstance(a, ast.Constant) and isinstance(a.value, str):
+                    records[st.targets[0].id] = a.value.replace(',', ' ').split()
+                elif isinstance(a, (ast.List, ast.Tuple)) and all(isinstance(x, ast.Constant) and isinstance(x.value, str) for x in a.elts):
+                    records[st.targets[0].id] = [x.value for x in a.elts]
+    # which record type are the entries?  the one the builder's entry list is made of
+    entry = None
+    for fi in repo.functions.values():
+        if fi.node.name != 'lookup_pack_unpack_methods':
+            continue
+        for n in ast.walk(fi.node):
+            if isinstance(n, ast.ListComp) and isinstance(n.elt, ast.Call) and isinstance(n.elt.func, ast.Name) and n.elt.func.id in records:
+                fields = records[n.elt.func.id]
+                c = n.elt
+                vals = dict(zip(fields, c.args))
+                for k in c.keywords:
+                    if k.arg:
+                        vals[k.arg] = k.value
+                if set(vals) == set(fields) and not any(isinstance(x, ast.Starred) for x in c.args):
+                    n.elt = ast.copy_location(ast.Tuple(elts=[vals[f] for f in fields], ctx=ast.Load()), c)
+                    entry = fields
+    if entry is None:
+        return 0
+    count = 0
+
+    def is_get_fields(it):
+        return isinstance(it, ast.Call) and isinstance(it.func, ast.Attribute) and it.func.attr == 'get_fields' and not it.args and not it.keywords
+
+    def rewrite(body_nodes, var):
+        """True when every use of var inside is var.<field>; then performs the renaming"""
+        uses = [x for b in body_nodes for x in ast.walk(b) if isinstance(x, ast.Name) and x.id == var]
+        attrs = [x for b in body_nodes for x in ast.walk(b) if isinstance(x, ast.Attribute) and isinstance(x.value, ast.Name) and x.value.id == var]
+        if len(uses) != len(attrs) or not uses or any(a.attr not in entry or not isinstance(a.ctx, ast.Load) for a in attrs):
+            return False
+
+        class T(ast.NodeTransformer):
+            def visit_Attribute(self, n):
+                if isinstance(n.value, ast.Name) and n.value.id == var and n.attr in entry:
+                    return ast.copy_location(ast.Name(id='%s_%s' % (var, n.attr), ctx=ast.Load()), n)
+                return self.generic_visit(n)
+        for i, b in enumerate(body_nodes):
+            body_nodes[i] = T().visit(b)
+        return True
+    for fi in repo.functions.values():
+        for n in ast.walk(fi.node):
+            if isinstance(n, ast.For) and isinstance(n.target, ast.Name) and is_get_fields(n.iter):
+                var = n.target.id
+                if rewrite(n.body, var):
+                    n.target = ast.copy_location(ast.Tuple(elts=[ast.Name(id='%s_%s' % (var, f), ctx=ast.Store()) for f in entry], ctx=ast.Store()), n.target)
+                    count += 1
+            elif isinstance(n, (ast.ListComp, ast.GeneratorExp, ast.SetComp)) and len(n.generators) == 1 and isinstance(n.generators[0].target, ast.Name) and is_get_fields(n.generators[0].iter):
+                g = n.generators[0]
+                var = g.target.id
+                holder = [n.elt] + list(g.ifs)
+                if rewrite(holder, var):
+                    n.elt, g.ifs = holder[0], holder[1:]
+                    g.target = ast.copy_location(ast.Tuple(elts=[ast.Name(id='%s_%s' % (var, f), ctx=ast.Store()) for f in entry], ctx=ast.Store()), g.target)
+                    count += 1
+        ast.fix_missing_locations(fi.node)
+    return count
+
+
 def inline_helpers(repo):
+    repo.lowered_record_entries = lower_record_entries(repo)
     repo.lowered_suppress = lower_suppress(repo)
     repo.lowered_index_loops = lower_index_loops(repo)
     repo.lowered_combinators = lower_combinators(repo)
